@@ -289,11 +289,12 @@ func Summary(reqs []Request) string {
 // (i ≥ 1) is answered so that the simulator can land a chain event inside a batch.
 func (n *Node) Serve(url string, reqs []Request, between func(i int)) []Reply {
 	out := make([]Reply, len(reqs))
-	n.viewFloor = 0
 	if n.ViewLag > 0 {
+		// (never in Quiet mode, where Serve runs on many goroutines at once
+		// and must not write to the node)
 		n.viewFloor = n.viewLen()
+		defer func() { n.viewFloor = 0 }()
 	}
-	defer func() { n.viewFloor = 0 }()
 	for i, r := range reqs {
 		if i > 0 && between != nil {
 			between(i)
